@@ -386,6 +386,19 @@ func runReseg(fs fragSpec, d uint64, t tools) resegResult {
 	if of.Init != nil {
 		trex = trexFor(of.Init, tid)
 	}
+	// the init segment is passed through: the output must describe every input track as the input did
+	if fin, err := decodeBytes(data); err == nil {
+		if (fin.Init == nil) != (of.Init == nil) {
+			return resegResult{class: "init-differs", input: input, msg: "init segment present in only one of input / output"}
+		}
+		if fin.Init != nil {
+			for _, trak := range fin.Init.Moov.Traks {
+				if d := trackDescribed(of.Init, trak.Tkhd.TrackID, trak, trexFor(fin.Init, trak.Tkhd.TrackID), false); d != "" {
+					return resegResult{class: "init-differs", input: input, msg: d}
+				}
+			}
+		}
+	}
 	segs, err := segmentSamples(of, trex, tid)
 	if err != nil {
 		return resegResult{class: "unreadable", input: input, msg: err.Error()}
@@ -461,6 +474,9 @@ func checkReseg(fs fragSpec, d uint64, t tools, evals *int) string {
 		return "tool-error"
 	case "unreadable":
 		fail("resegmenter", "unreadable-output", w, res.msg)
+		return res.class
+	case "init-differs":
+		fail("resegmenter", "init-differs", w, res.msg)
 		return res.class
 	}
 	got := flatten(res.segs)
@@ -624,6 +640,7 @@ type combResult struct {
 }
 
 func runCombine(v, a fragSpec, t tools) (res combResult) {
+	var inInits [2]*mp4.InitSegment
 	dir := filepath.Join(t.tmp, "comb")
 	os.RemoveAll(dir)
 	defer os.RemoveAll(dir)
@@ -678,6 +695,7 @@ func runCombine(v, a fragSpec, t tools) (res combResult) {
 			return combResult{class: "synth-error", msg: err.Error()}
 		}
 		res.inputs[i] = flatten(inSegs)
+		inInits[i] = fi.Init
 	}
 	_, stderr, rc, timedOut := runTool(t.combine, nil, dir, 20*time.Second)
 	if timedOut {
@@ -709,6 +727,10 @@ func runCombine(v, a fragSpec, t tools) (res combResult) {
 		trex := trexFor(f.Init, tid)
 		if trex == nil {
 			res.class, res.msg = "unreadable", fmt.Sprintf("no trex for track %d in combined init", tid)
+			return res
+		}
+		if d := trackDescribed(f.Init, tid, inInits[i].Moov.Trak, inInits[i].Moov.Mvex.Trex, false); d != "" {
+			res.class, res.msg = "init-differs", fmt.Sprintf("combined init, track %d: %s", tid, d)
 			return res
 		}
 		ss, err := fragSamples(frag, trex, tid)
@@ -762,7 +784,7 @@ func checkCombine(v, a fragSpec, t tools, evals *int) string {
 	case "synth-error":
 		fail("harness", "synth-error", w, res.msg)
 		return res.class
-	case "timeout", "panic", "err", "unreadable":
+	case "timeout", "panic", "err", "unreadable", "init-differs":
 		fail("combine-segs", res.class, w, res.msg)
 		return res.class
 	}
